@@ -299,6 +299,35 @@ FOCI_QUICK = [
 FOCI_THOROUGH = FOCI_QUICK + [("serial", "name"), ("res_seq", "x"), ("y", "z"), ("ins", "x"), ("chain",), ("radius",), ("res_name", "chain", "res_seq")]
 
 
+def h_atom_list_twins(eng, n, kc):
+    """io.print_biomolecule_atoms on atoms whose chain id and insertion code are selectors (concrete per path, so that a
+    writer that sorts, groups or de-duplicates by a key runs natively): consecutive residues may share chain, number and
+    residue name and differ in the insertion code only; chains need not come in alphabetical order.  One line per atom, in
+    list order, serial = position."""
+    from pdb2pqr import io, structures
+
+    atoms = []
+    for k in range(n):
+        a = structures.Atom(type_="ATOM")
+        a.name, a.res_name, a.res_seq = "CA", "SER", 20
+        a.chain_id = "BA"[eng.choice(f"chain{k}", 2)]
+        a.ins_code = ["", "A", "B"][eng.choice(f"ins{k}", 3)]
+        a.x, a.y, a.z, a.ffcharge, a.radius = 1.0 + 3.0 * k, 2.0, 3.0, 0.25, 1.5
+        a.seg_id, a.element, a.occupancy, a.temp_factor, a.alt_loc, a.charge = "", "C", 1.0, 20.0, "", ""
+        atoms.append(a)
+    # a model holds each (chain, number, insertion code) once
+    ids = [(a.chain_id, a.ins_code) for a in atoms]
+    if len(set(ids)) < len(ids):
+        eng.check(True, "not-a-model")
+        return
+    lines = io.print_biomolecule_atoms(atoms, kc)
+    body = [ln for ln in lines if ln.startswith(("ATOM", "HETATM"))]
+    eng.check(len(body) == n, "one-line-per-atom", note=f"{len(body)} atom lines for {n} atoms with (chain, insertion code) {ids}")
+    xs = [float(ln[30:38]) for ln in body]
+    eng.check(xs == [a.x for a in atoms][: len(xs)] and len(xs) == n, "list-order-kept", note=f"atoms with (chain, insertion code) {ids} are written in the order x = {xs} (--keep-chain {kc})")
+    eng.check([a.serial for a in atoms] == list(range(1, n + 1)), "serial-is-position", note=f"serials {[a.serial for a in atoms]}")
+
+
 def h_chain_flow(eng, ff, pka, ligand):
     """whatever path the real driver takes (--clean, --assign-only, force-field run, ...), the chain column of the
     PQR lines follows --keep-chain: every call that renders PQR atom lines receives chainflag == args.keep_chain"""
@@ -369,6 +398,8 @@ def obligations(tier):
     # the CIF-flavoured output (TER records dropped, a closing '#' line) reads back like the plain one (found+fixed C08-F10)
     for ws in (False, True):
         obs.append(Obligation(f"roundtrip-cif-output-{'ws' if ws else 'fixed'}", h_roundtrip, dict(focus=["res_seq", "x"], rtype="HETATM", ws=ws, kc=True, is_cif=True), group="roundtrip", time_cap=1500, max_paths=100000))
+    for kc in (False, True):
+        obs.append(Obligation(f"atom-list-twins-n3-{'kc' if kc else 'nokc'}", h_atom_list_twins, dict(n=3, kc=kc), group="atom-list", time_cap=1200, max_paths=100000))
     for ff, pka, lig in ((0, 0, 0),) if tier == "quick" else ((0, 0, 0), (1, 1, 0), (2, 0, 1)):
         obs.append(Obligation(f"chain-flow-ff{ff}-pka{pka}-lig{lig}", h_chain_flow, dict(ff=ff, pka=pka, ligand=lig), group="flow", time_cap=1500, max_paths=200000))
     for ff in (0, 1):
